@@ -382,6 +382,16 @@ pub fn gen_program(rng: &mut impl Rng, user_ops: &[String]) -> Vec<String> {
 /// Corrupt a token list: delete / insert / replace / swap a delimiter (C05 leg T).
 pub fn corrupt(rng: &mut impl Rng, toks: &mut Vec<String>) {
     const JUNK: &[&str] = &["(", ")", "[", "]", "{", "}", ",", ";", ":", "?", "+", "not", "in", "1", "x", "++", "!", "=="];
+    // one edit in five: a separator / closer / opener replaced by a STRING whose content is that very text (a token is what it is
+    // by kind, never by what it spells)
+    if rng.gen_bool(0.2) {
+        let spots: Vec<usize> = toks.iter().enumerate().filter(|(_, t)| matches!(t.as_str(), "," | ":" | ";" | ")" | "]" | "}" | "(" | "?")).map(|(i, _)| i).collect();
+        if !spots.is_empty() {
+            let i = spots[rng.gen_range(0..spots.len())];
+            toks[i] = format!("'{}'", toks[i]);
+            return;
+        }
+    }
     let edits = rng.gen_range(1..3);
     for _ in 0..edits {
         if toks.is_empty() {
